@@ -1,5 +1,6 @@
 /- The model instantiated with what the translator read off the CURRENT ev.c. -/
 import JanetModel.Ev.Model
+import JanetModel.Ev.Mark
 import JanetModel.Gen.Ev
 namespace JanetModel.Ev
 
@@ -10,5 +11,10 @@ abbrev currentCfg : Cfg :=
 
 /-- JANET_MAX_Q_CAPACITY -/
 abbrev maxQCapacity : Nat := Gen.Ev.maxQCapacity
+
+/-- the walk of janet_chanat_mark over the items ring, as extracted from the current source -/
+abbrev currentMarkItems : MarkWalk := MarkWalk.ofCodes Gen.Ev.chanMarkItemsStraight Gen.Ev.chanMarkItemsWrapped
+/-- the walk of janet_chanat_mark_fq over a pending queue, as extracted from the current source -/
+abbrev currentMarkPending : MarkWalk := MarkWalk.ofCodes Gen.Ev.chanMarkPendingStraight Gen.Ev.chanMarkPendingWrapped
 
 end JanetModel.Ev
